@@ -681,6 +681,89 @@ impl Check for C18 {
 
 const C20_LENS: [u64; 9] = [0, 1, 2, 3, 7, 10, 100, 1000, 1050];
 
+/// "Run until converged": an astronomically large `steps` with a threshold that every loop meets.
+/// The run must end after exactly six inner loops, as the same run with steps = 6 * inner_steps
+/// and no threshold does (the cooling factor does not depend on `steps` without kt_finish).
+pub fn gen_c20_unbounded(rng: &mut Rng) -> J {
+    let ps = gen_params(rng, &[(1, 1), (2, 3), (3, 3), (6, 2)]);
+    let mut ls = gen_land_general(rng, false);
+    ls.nan_holes = false;
+    let inner = *rng.pick(&[1u64, 1, 2, 3, 7, 10, 100, 1000]);
+    let steps = *rng.pick(&[u64::MAX, u64::MAX, u64::MAX - 1, 1 << 63, 1 << 62, 1_000_000_000_000_000_000, 10_000_000_000_000, 1 << 40]);
+    let cfg = OptCfg {
+        steps,
+        inner,
+        kt_start: *rng.pick(&[0.0, 1e-3, 0.1, 5.0]),
+        kt_finish: None,
+        kt_ratio: *rng.pick(&[None, Some(0.0), Some(0.3), Some(1.0)]),
+        max_step: *rng.pick(&[1e-3, 0.01, 0.1, 1.0]),
+        convergence: Some(*rng.pick(&[f64::INFINITY, 1e300])),
+        seed: rng.below(1 << 32),
+        order: if rng.chance(0.5) { 1 + rng.below(1 << 20) } else { 0 },
+        prior: None,
+    };
+    scen(&ps, &ls, &cfg).set("mode", J::str("optimiser-unbounded"))
+}
+
+pub fn exec_c20_unbounded(j: &J) -> Result<RunOut, String> {
+    let (ps, ls, cfg) = unscen(j)?;
+    let six = 6u64.saturating_mul(cfg.inner);
+    if cfg.convergence.is_none() || cfg.kt_finish.is_some() || cfg.steps < six {
+        return Err("scenario error: not an unbounded-steps scenario".into());
+    }
+    super::CALL_BUDGET.with(|b| b.set(six + 64));
+    let run = run_e1(&ps, &ls, &cfg)?;
+    super::CALL_BUDGET.with(|b| b.set(u64::MAX));
+    let tr = run.trace();
+    let mut out = super::checks_base_out(&run, &tr);
+    out.nontrivial = true;
+    out.count("probe.unbounded_steps_runs", 1);
+    if let Some(p) = &run.panic {
+        if p.starts_with(super::BUDGET_MSG) {
+            out.violate(Violation::new(
+                "no-early-exit",
+                run.obs.len() as u64,
+                format!("steps = {}, inner_steps = {}, convergence = {:e} (met by every loop): still running after {} score() evaluations; six inner loops are {} proposals", cfg.steps, cfg.inner, cfg.convergence.unwrap(), run.obs.len(), six),
+            ));
+        } else {
+            out.violate(Violation::new("panic", run.obs.len() as u64, format!("optimise_state panicked with steps = {}, inner_steps = {}, convergence = {:e}: {}", cfg.steps, cfg.inner, cfg.convergence.unwrap(), p)).sig("zero_length", "no"));
+        }
+        return Ok(out);
+    }
+    let mut twin_cfg = cfg.clone();
+    twin_cfg.steps = six;
+    twin_cfg.convergence = None;
+    let twin = run_e1(&ps, &ls, &twin_cfg)?;
+    if twin.panic.is_some() {
+        return Ok(out);
+    }
+    // equal histories, up to one trailing bookkeeping evaluation (no parameter moved) that only
+    // one of the two exit paths makes
+    let m = run.obs.iter().zip(twin.obs.iter()).take_while(|(a, b)| a.diff == b.diff && a.score.map(|x| x.to_bits()) == b.score.map(|x| x.to_bits())).count();
+    // (bookkeeping = an evaluation of exactly the state that is then returned)
+    let (short, long, long_run) = if run.obs.len() <= twin.obs.len() { (&run.obs, &twin.obs, &twin) } else { (&twin.obs, &run.obs, &run) };
+    let last_vec = |r: &E1Run| -> Vec<u64> {
+        let mut v = r.x0.clone();
+        for o in &r.obs {
+            for (i, b) in &o.diff {
+                v[*i as usize] = *b;
+            }
+        }
+        v
+    };
+    let trailing_bookkeeping = long.len() == short.len() + 1 && long_run.ret_basis.as_ref() == Some(&last_vec(long_run));
+    let same = m == short.len() && (long.len() == short.len() || trailing_bookkeeping);
+    if !same {
+        let class = if m == run.obs.len().min(twin.obs.len()) && run.obs.len() < twin.obs.len() { "early-exit-too-soon" } else if m == twin.obs.len() { "no-early-exit" } else { "convergence-run-not-a-prefix" };
+        out.violate(Violation::new(
+            class,
+            m as u64,
+            format!("steps = {}, inner_steps = {}, convergence = {:e}: {} score() evaluations, the run of exactly six inner loops without a threshold makes {}; histories agree up to call {}", cfg.steps, cfg.inner, cfg.convergence.unwrap(), run.obs.len(), twin.obs.len(), m),
+        ));
+    }
+    Ok(out)
+}
+
 pub fn gen_c20_e1(rng: &mut Rng, _tier: Tier) -> J {
     let ps = gen_params(rng, &[(1, 1), (2, 3), (3, 3), (6, 3), (64, 1)]);
     let ls = gen_land_general(rng, false);
